@@ -3,8 +3,8 @@
 ID=$1; NAME=${2:-$ID}
 W=/tmp/mut/$NAME; O=/tmp/mut_out/$NAME
 cd $W || exit 1
-git diff > /tmp/eval_$NAME.patch
-[ -s /tmp/eval_$NAME.patch ] || cp $O/patch.diff /tmp/eval_$NAME.patch
+cp $O/patch.diff /tmp/eval_$NAME.patch
+[ -s /tmp/eval_$NAME.patch ] || { echo "no patch"; exit 1; }
 git checkout -q -- . ; git apply /tmp/eval_$NAME.patch || { echo "patch does not apply"; exit 1; }
 echo "--- demo with change:"; (cd $W && PYTHONPATH=$W timeout 300 /venv/bin/python $O/demo.py > /tmp/eval_$NAME.demo1 2>&1; echo "exit=$?")
 echo "--- unit tests with change:"; (cd $W && timeout 900 /venv/bin/python -m pytest -q -p no:cacheprovider test 2>&1 | tail -1)
@@ -13,7 +13,7 @@ echo "--- demo without change:"; (cd $W && PYTHONPATH=$W timeout 300 /venv/bin/p
 git apply /tmp/eval_$NAME.patch
 echo "--- our check on /repo with the change:"
 git -C /repo apply /tmp/eval_$NAME.patch || { echo "does not apply to /repo"; exit 1; }
-cd /verif; timeout 1200 ./check $ID --tier quick > /tmp/eval_$NAME.check 2>&1; echo "check exit=$?"
+cd /verif; timeout 1200 ./check $ID --tier quick --no-minimise > /tmp/eval_$NAME.check 2>&1; echo "check exit=$?"
 git -C /repo checkout -- .
-grep -E "quick:|^  signature|^VIOLATION|DID NOT|HARNESS" /tmp/eval_$NAME.check | cut -c1-240
+grep -E "quick:|^  signature|DID NOT|HARNESS" /tmp/eval_$NAME.check | cut -c1-200
 git -C /repo status --short | head -2
